@@ -1084,8 +1084,9 @@ class DerivEval:
             return h
         hk["expand_norm_factor"] = tay("c")
         hk["expand_S_taylor"] = tay("s")
+        # no call-event tags: two requests of a cached method with equal arguments are the same object here
         sx = dx.make_sx(self.ctx, what, scen, extra_inline={SM + ".block_order", SM + ".max_ptorder_spaces"}, hooks=hk,
-                        max_paths=20000)
+                        max_paths=20000, occurrence=lambda name: False)
         base = scen.reset
 
         def reset(s):
